@@ -278,9 +278,21 @@ def mutate_invalid(rng, methods):
             return P("u64") if txt != "u64" else P("u32")
         if not m.raw:
             m.payload = [(n, rng.choice([t, t, P("Vec", P("String")), P("Option", P("String"))])) for n, t in m.payload]
-        other = RMethod(name=m.name + "_o", on={"success": "error", "error": "success", "always": "error"}[m.on],
-                        handlers=list(m.claims())[:1], payload=[(n, other_ty(t)) for n, t in m.payload], raw=False)
-        methods.append(other)
+        # the ONLY fault must be the payload types: when the name already has a second method, its payload is changed;
+        # otherwise a method for the opposite outcome is added (an `always` method leaves no free outcome)
+        h = list(m.claims())[0]
+        mates = [x for x in methods if x is not m and h in x.claims()]
+        if mates and not mates[0].raw:
+            mates[0].payload = [(n2, other_ty(t)) for (n2, _), (_, t) in zip(mates[0].payload, m.payload)] \
+                if len(mates[0].payload) == len(m.payload) else [(n, other_ty(t)) for n, t in m.payload]
+        elif m.on != "always" and not mates:
+            other = RMethod(name=m.name + "_o", on={"success": "error", "error": "success"}[m.on],
+                            handlers=[h], payload=[(n, other_ty(t)) for n, t in m.payload], raw=False)
+            methods.append(other)
+        else:
+            m.on = "success"
+            other = RMethod(name=m.name + "_o", on="error", handlers=[h], payload=[(n, other_ty(t)) for n, t in m.payload], raw=False)
+            methods[:] = [x for x in methods if x is m or h not in x.claims()] + [other]
     elif kind == "data_on_error":
         m2 = [x for x in methods if x.on != "success"]
         if m2:
